@@ -100,6 +100,11 @@ fn gen_resp(rng: &mut Rng, uniq: &mut u64, resp_no: u64, max_calls: u64, clean: 
     if rng.chance(1, 3) {
         rng.shuffle(&mut idx);
     }
+    // some providers do not send output_index at all: the output order is then the arrival order
+    let omit_index = k >= 2 && rng.chance(1, 6);
+    if omit_index {
+        idx = vec![u64::MAX; k as usize];
+    }
     let mut prev: Option<String> = None;
     for i in 0..k as usize {
         *uniq += 1;
@@ -118,7 +123,7 @@ fn gen_resp(rng: &mut Rng, uniq: &mut u64, resp_no: u64, max_calls: u64, clean: 
     let (bytes, _) = esim::render_sse(&events, false, &DoneMode::Present, false);
     Resp::Sse {
         events,
-        interleave: rng.chance(1, 3),
+        interleave: !omit_index && rng.chance(1, 3),
         done: if rng.chance(1, 6) { DoneMode::Missing } else { DoneMode::Present },
         chunking: match rng.below(4) {
             0 => Chunking::Whole,
@@ -355,6 +360,23 @@ pub fn execute(sc: &Scenario, env: &Env) -> (Outcome, RunStats) {
             let Some(body) = &r.json else {
                 return (Outcome::Violation(viol("request_not_json", "request_not_json".into(), format!("request #{} body is not JSON", r.index))), stats);
             };
+            // constraints of the create-response schema that provider-supplied strings can break,
+            // checked here independently of the validator under test
+            for it in input_items(body) {
+                let ty = it.get("type").and_then(|t| t.as_str()).unwrap_or("");
+                if ty == "function_call" || ty == "function_call_output" {
+                    let cid = it.get("call_id").and_then(|c| c.as_str()).unwrap_or("");
+                    if cid.is_empty() || cid.len() > 64 {
+                        return (Outcome::Violation(viol("invalid_request_sent", "invalid_request_sent:call_id_length".into(), format!("request #{} carries a {ty} item whose call_id has {} characters (schema: 1..64)", r.index, cid.len()))), stats);
+                    }
+                }
+                if ty == "function_call" {
+                    let name = it.get("name").and_then(|c| c.as_str()).unwrap_or("");
+                    if name.is_empty() || name.len() > 64 || !name.chars().all(|c| c.is_ascii_alphanumeric() || c == '_' || c == '-') {
+                        return (Outcome::Violation(viol("invalid_request_sent", "invalid_request_sent:function_name".into(), format!("request #{} carries a function_call item named {name:?} (schema: ^[a-zA-Z0-9_-]+$, 1..64)", r.index))), stats);
+                    }
+                }
+            }
             if let Err(errs) = rip_openresponses::validate_create_response_body(body) {
                 return (Outcome::Violation(viol("invalid_request_sent", "invalid_request_sent".into(), format!("request #{} fails schema validation: {:?}", r.index, &errs[..errs.len().min(3)]))), stats);
             }
